@@ -12,7 +12,9 @@ EXPLANATION = (
     'by exactly as much as the loop index advances (single shift 1, double shift 2), the decomposition applied is the one '
     'computed in the same branch, and compress_V followed by factorize_from(k, ncv) runs on every path after the loop -- so k '
     'equals the advertised dimension; (D4) every division by the residual norm is reached only after the test against the tiny '
-    'threshold or after a fresh direction whose acceptance test (strict, in the sign domain) implies a positive norm. Does NOT '
+    'threshold or after a fresh direction whose acceptance test (strict, in the sign domain) implies a positive norm; (D5) the cached residual norm tracks the residual: after '
+    'every write of the residual vector every normal path to the exit passes the matching update of the norm; (D6) loop-carried work '
+    'buffers are refreshed on every path of an iteration before they are read, and no noalias() destination is a factor of its own product. Does NOT '
     'decide A V = V H + f e\', V^H B V = I, V^H B f = 0 to rounding level: those are floating-point magnitudes.')
 ASSUMPTIONS = ['the B operator handed to the adaptor is the positive-definite matrix of the pencil (C03 mode table)',
                'expand_basis finds an acceptable direction within its 5 attempts (documented as almost sure); the fall-through exit is not guarded']
